@@ -37,6 +37,7 @@ type reqRec struct {
 	Method string
 	Path   string
 	Status int
+	Name   string // metadata.name of the object a POST creates
 }
 
 type reqLog struct {
@@ -81,17 +82,31 @@ var discoveryDocs = map[string]string{
 
 func (t *logRT) RoundTrip(req *http.Request) (*http.Response, error) {
 	if doc, ok := discoveryDocs[req.URL.Path]; ok && req.Method == http.MethodGet {
-		t.log.add(reqRec{req.Method, req.URL.Path, 200})
+		t.log.add(reqRec{req.Method, req.URL.Path, 200, ""})
 		return &http.Response{StatusCode: 200, Status: "200 OK", Proto: "HTTP/1.1", ProtoMajor: 1, ProtoMinor: 1,
 			Header: http.Header{"Content-Type": []string{"application/json"}},
 			Body:   io.NopCloser(strings.NewReader(doc)), ContentLength: int64(len(doc)), Request: req}, nil
+	}
+	name := ""
+	if req.Method == http.MethodPost && req.Body != nil {
+		body, _ := io.ReadAll(req.Body)
+		req.Body.Close()
+		req.Body = io.NopCloser(bytes.NewReader(body))
+		var o struct {
+			Metadata struct {
+				Name string `json:"name"`
+			} `json:"metadata"`
+		}
+		if json.Unmarshal(body, &o) == nil {
+			name = o.Metadata.Name
+		}
 	}
 	resp, err := t.inner.RoundTrip(req)
 	st := 0
 	if resp != nil {
 		st = resp.StatusCode
 	}
-	t.log.add(reqRec{req.Method, req.URL.Path, st})
+	t.log.add(reqRec{req.Method, req.URL.Path, st, name})
 	return resp, err
 }
 
